@@ -71,6 +71,8 @@ type DatabaseI interface {
 type compactionAction struct {
 	pathsToCompact []string
 	totalRecords   uint64
+	// includesOldestTable is true when the selection starts at the oldest table, only then tombstones can be dropped
+	includesOldestTable bool
 }
 
 type memStoreFlushAction struct {
